@@ -1,23 +1,25 @@
 (* C02 -- verification accepts exactly the triples RFC 8554 accepts, and nothing else.
-   Statements only; proofs in Proofs/VerifyStruct.v, Proofs/RfcCore.v, Spec/RfcKat.v.
+   Statements only; proofs in Proofs/RfcVerifyEquiv.v, Proofs/VerifyStruct.v, Proofs/RfcCore.v,
+   Spec/RfcKat.v.
 
-   What is a theorem here (for EVERY hash function and EVERY byte string):
-     - acceptance implies every check of RFC 8554 section 6.3 / Algorithms 6, 6a (level count,
-       type-code equality between signature and verifying key at every level, leaf index < 2^h,
-       recomputed root = key's root, exact consumption of the input);
-     - the hash computations behind "recomputed root" are the RFC's (chain steps, leaf / interior
-       node preimages, climbing order), under the RFC constants of the current source;
-     - bytes appended to an accepted signature or public key are rejected;
-     - the RFC's Appendix F vectors are accepted by the model and by the independent RFC
-       transcription, and rejected after corruption.
-   What is NOT a theorem: the byte-level equivalence of the model's cursor parser with the
-   independent transcription's slicing (Spec/Rfc8554.v) over all inputs -- that is established by
-   evaluating both inside Coq on every triple the implementation judged (driver: RFC judge), and
-   "any alteration is rejected" beyond the structural checks, which needs second-preimage
-   resistance of H.  KNOWN FINDING: rows n=16/w=1, n=16/w=2, n=24/w=1 use a non-RFC checksum shift. *)
+   What is a theorem here (for EVERY hash function with n-byte output and EVERY byte string):
+     - [C02_verifier_is_rfc8554_verifier]: the verifier of the code (cursor parsers, type checks,
+       candidate computation, chain of signed public keys) returns "accepted" IF AND ONLY IF the
+       independent transcription of RFC 8554 section 6.3 / Algorithms 6, 6a, 4b (Spec/Rfc8554.v:
+       slicing by offsets, written from the RFC text) returns VALID, when both use the parameter
+       rows (w, p, ls, h per type code) of the current source;
+     - [C02_tables_are_rfc_tables]: those rows are the RFC's (Table 1 / Appendix B formulas,
+       Table 2) except the three known-finding rows, so for n = 32 the right-hand side is
+       literally RFC 8554 ([C02_verifier_is_rfc8554_n32]);
+     - acceptance implies every check of 6.3 / 6 / 6a; wrong level count, type-code mismatch and
+       appended bytes are rejected; the hash preimages are the RFC's;
+     - the RFC's Appendix F vectors are accepted by the model and by the transcription.
+   What is NOT a theorem: "any alteration of an accepted triple is rejected" beyond the structural
+   checks -- that is second-preimage resistance of H.
+   KNOWN FINDING: rows n=16/w=1, n=16/w=2, n=24/w=1 use a non-RFC checksum shift. *)
 From HbsLms Require Import Base.Bytes Model.Consts Model.Lmots Model.Lms Model.Codec Model.Hss.
 From HbsLms Require Import Spec.Rfc8554Ots Spec.Rfc8554 Spec.RfcKat.
-From HbsLms Require Import Proofs.VerifyStruct Proofs.RfcCore Gen.Generated.
+From HbsLms Require Import Proofs.VerifyStruct Proofs.RfcCore Proofs.RfcVerifyEquiv Gen.Generated.
 From HbsLms Require Import Properties.C07.
 
 Local Open Scope N_scope.
@@ -93,6 +95,87 @@ Theorem C02_rfc_vectors :
   /\ hss_verify K_src 32 sha rfc_testcase2_message rfc_testcase2_signature rfc_testcase2_public_key = Ok tt.
 Proof. exact C07_rfc_vectors. Qed.
 
+
+(* ---- the byte-level equivalence with the RFC transcription ---- *)
+
+Theorem C02_verifier_is_rfc8554_verifier :
+  forall (n : nat) (H : bytes -> bytes) (msg sig pk : bytes),
+    In n hash_sizes -> (forall x, length (H x) = n) ->
+    (hss_verify K_src n H msg sig pk = Ok tt
+     <-> hss_verify_rfc n H (ots_tbl_of K_src n) (lms_tbl_of K_src)
+                        (N.of_nat (c_max_levels K_src)) msg sig pk = true).
+Proof.
+  intros n H msg sig pk Hn HL.
+  exact (hss_verify_iff_rfc K_src n H HL source_consts_rfc (tables_ok_n n Hn) msg sig pk).
+Qed.
+
+(* the rows handed to the transcription are RFC 8554's, except the known-finding rows *)
+Ltac deep p := try (destruct p as [p|p|]; try reflexivity; try lia).
+
+Lemma rfc_ots_tbl_none n code : 5 <= code -> rfc_ots_tbl n code = None.
+Proof. intros Hc. destruct code as [|p]; [lia|]. deep p; deep p; deep p. Qed.
+
+Lemma rfc_lms_tbl_none code : 10 <= code -> rfc_lms_tbl code = None.
+Proof. intros Hc. destruct code as [|p]; [lia|]. deep p; deep p; deep p; deep p. Qed.
+
+Lemma ots_tbl_none n code : 5 <= code -> ots_tbl_of K_src n code = None.
+Proof.
+  intros Hc. unfold ots_tbl_of. destruct (ots_of_type K_src n code) as [prm|] eqn:E; [|reflexivity].
+  unfold ots_of_type in E. destruct (assoc code (c_ots_get_from_type K_src)) as [v|] eqn:A; [|discriminate].
+  apply assoc_key in A. cbn in A. lia.
+Qed.
+
+Lemma lms_tbl_none code : 10 <= code -> lms_tbl_of K_src code = None.
+Proof.
+  intros Hc. unfold lms_tbl_of. destruct (lms_of_type K_src code) as [lp|] eqn:E; [|reflexivity].
+  unfold lms_of_type in E. destruct (assoc code (c_lms_get_from_type K_src)) as [v|] eqn:A; [|discriminate].
+  apply assoc_key in A. cbn in A. lia.
+Qed.
+
+Theorem C02_tables_are_rfc_tables :
+  (forall n code, In n hash_sizes ->
+     ots_tbl_of K_src n code = rfc_ots_tbl n code
+     \/ In (n, code) [(16%nat, 1); (16%nat, 2); (24%nat, 1)])
+  /\ (forall code, lms_tbl_of K_src code = if code =? 1 then Some 2 else rfc_lms_tbl code).
+Proof.
+  split.
+  - intros n code Hn. destruct (N.le_gt_cases 5 code) as [Hc|Hc].
+    + left. now rewrite ots_tbl_none, rfc_ots_tbl_none.
+    + assert (C : code = 0 \/ code = 1 \/ code = 2 \/ code = 3 \/ code = 4) by lia.
+      destruct Hn as [<-|[<-|[<-|[]]]];
+        destruct C as [->|[->|[->|[->| ->]]]];
+        first [left; vm_compute; reflexivity | right; cbn; tauto].
+  - intros code. destruct (N.le_gt_cases 10 code) as [Hc|Hc].
+    + rewrite lms_tbl_none, rfc_lms_tbl_none by assumption.
+      destruct (N.eqb_spec code 1); [lia|reflexivity].
+    + assert (C : code = 0 \/ code = 1 \/ code = 2 \/ code = 3 \/ code = 4 \/ code = 5
+                  \/ code = 6 \/ code = 7 \/ code = 8 \/ code = 9) by lia.
+      destruct C as [->|[->|[->|[->|[->|[->|[->|[->|[->| ->]]]]]]]]]; vm_compute; reflexivity.
+Qed.
+
+(* hence, for the 32-byte hashes, literally RFC 8554 (the LMS table extended by the 4-leaf
+   test type, code 1, that the verification build enables) *)
+Theorem C02_verifier_is_rfc8554_n32 :
+  forall (H : bytes -> bytes) (msg sig pk : bytes),
+    (forall x, length (H x) = 32%nat) ->
+    (hss_verify K_src 32 H msg sig pk = Ok tt
+     <-> hss_verify_rfc 32 H (rfc_ots_tbl 32)
+                        (fun code => if code =? 1 then Some 2 else rfc_lms_tbl code) 8 msg sig pk = true).
+Proof.
+  intros H msg sig pk HL.
+  rewrite (C02_verifier_is_rfc8554_verifier 32 H msg sig pk (or_intror (or_intror (or_introl eq_refl))) HL).
+  destruct C02_tables_are_rfc_tables as [TO TL].
+  rewrite (hss_verify_rfc_ext 32 H (ots_tbl_of K_src 32) (rfc_ots_tbl 32) (lms_tbl_of K_src)
+             (fun code => if code =? 1 then Some 2 else rfc_lms_tbl code)).
+  - change (N.of_nat (c_max_levels K_src)) with 8. reflexivity.
+  - intros c. destruct (TO 32%nat c (or_intror (or_intror (or_introl eq_refl)))) as [E|E]; [exact E|].
+    cbn in E. destruct E as [E|[E|[E|[]]]]; discriminate E.
+  - exact TL.
+Qed.
+
+Print Assumptions C02_verifier_is_rfc8554_verifier.
+Print Assumptions C02_tables_are_rfc_tables.
+Print Assumptions C02_verifier_is_rfc8554_n32.
 Print Assumptions C02_accept_implies_rfc_checks.
 Print Assumptions C02_lms_checks.
 Print Assumptions C02_wrong_level_count_rejected.
